@@ -130,7 +130,9 @@ fn body(ch: &Ch) -> Run {
   // the first imports, then root2.ts with the rest), and the lockfile may
   // already hold the selections for the program's own requirements
   let split = if root_imports.len() >= 2 { ch.choose("second_build_starts_at_import", root_imports.len()) } else { 0 };
-  let seed_lockfile = ch.choose("lockfile_holds_the_programs_selections", 2) == 1;
+  // non-default option: jsr: specifiers are left to the embedder (marked external)
+  let passthrough = ch.choose("passthrough_jsr_specifiers", 2) == 1;
+  let seed_lockfile = !passthrough && ch.choose("lockfile_holds_the_programs_selections", 2) == 1;
   let mut root_src = String::new();
   let mut root2_src = String::new();
   for (i, t) in root_imports.iter().enumerate() {
@@ -179,6 +181,7 @@ fn body(ch: &Ch) -> Run {
     &loader,
     BuildCfg {
       npm: Some(&npm),
+      passthrough_jsr: passthrough,
       ..Default::default()
     },
     ch,
@@ -190,6 +193,7 @@ fn body(ch: &Ch) -> Run {
       &loader,
       BuildCfg {
         npm: Some(&npm),
+        passthrough_jsr: passthrough,
         ..Default::default()
       },
       ch,
@@ -200,6 +204,7 @@ fn body(ch: &Ch) -> Run {
     "root": root_src,
     "root2_built_afterwards_on_the_same_graph": if split > 0 { Some(&root2_src) } else { None },
     "lockfile_holds_the_programs_selections": seed_lockfile,
+    "passthrough_jsr_specifiers": passthrough,
     "packages": fx.versions.iter().map(|((p, v), (shape, files))| json!({"nv": format!("{p}@{v}"), "exports": exports_of(shape), "files": files})).collect::<Vec<_>>(),
   });
   let case = |extra: Value| json!({"registry": describe, "detail": extra});
@@ -214,6 +219,7 @@ fn body(ch: &Ch) -> Run {
   let mut exp_deps: BTreeSet<String> = BTreeSet::new();
   let mut exp_pkgs: BTreeSet<String> = BTreeSet::new();
   let mut exp_unknown: BTreeMap<String, Vec<String>> = BTreeMap::new();
+  let mut exp_external: BTreeSet<String> = BTreeSet::new();
   let mut seen: BTreeSet<String> = BTreeSet::new();
   // worklist of (url of loaded module, its import texts)
   let mut work: Vec<(String, Vec<String>)> = vec![("https://x/root.ts".into(), root_imports.clone())];
@@ -238,6 +244,11 @@ fn body(ch: &Ch) -> Run {
       if let Some((pkg, req, export)) = parse_jsr(t) {
         if let Some(o) = &owner {
           exp_deps.insert(format!("{o} -> jsr:{pkg}@{req}"));
+        }
+        if passthrough {
+          // nothing is resolved or loaded; the dependency edge is all there is
+          exp_external.insert(t.clone());
+          continue;
         }
         let ver = pick_version(&req);
         let nv = format!("{pkg}@{ver}");
@@ -296,6 +307,12 @@ fn body(ch: &Ch) -> Run {
     }
   }
   // ---------------- compare
+  for t in &exp_external {
+    let ok = matches!(g.try_get(&url(t)), Ok(Some(m)) if m.external().is_some());
+    if !ok {
+      run.violate("passthrough-jsr-specifier-not-external", format!("{t} should be an external entry with passthrough_jsr_specifiers"), case(json!({})));
+    }
+  }
   let got_redirects: BTreeMap<String, String> = g
     .redirects
     .iter()
